@@ -83,7 +83,7 @@ CHECKS = {
     "C09": ("model_checking",
             "request templates in TLA+ (Templates.tla) + exchange specifications (ValveA2S.tla ...) model-checked with TLC "
             "(ChallengeEchoed, OnlySectionRequests; Exchange.tla ChallengeFresh, OnlyProtocolRequests); TLC behaviours replayed, every "
-            "recorded send compared byte for byte; recorded random valve exchanges validated by TLC against Trace_ValveA2S.tla",
+            "recorded send compared byte for byte; recorded random exchanges validated by TLC against Trace_ValveA2S.tla / Trace_Exchange.tla",
             "Every request the client emits during every TLC-enumerated behaviour (challenge rounds, retries, gather settings) is compared byte "
             "for byte with the request the specification prescribes, including the challenge echo for stratified challenge values "
             "(each byte from {00, 41, FF, other}), and the destination address/port.",
@@ -91,7 +91,8 @@ CHECKS = {
     "C10": ("fault_enumeration",
             "retry contract inside the TLA+ exchange specifications, model-checked with TLC (AttemptsBounded, RetryOnlyAfterTimeout, "
             "ErrorClassFaithful; ValveA2S.tla, Exchange.tla, Unreal2.tla); every per-attempt outcome vector TLC enumerates is replayed "
-            "through the scripted transport; recorded random valve exchanges (r up to 5) validated by TLC against Trace_ValveA2S.tla",
+            "through the scripted transport; recorded random exchanges (r up to 5) validated by TLC against Trace_ValveA2S.tla and "
+            "Trace_Exchange.tla; Exchange refines RetryInd.tla (TLC), whose inductive invariant holds for every retry count (Apalache, thorough)",
             "TLC enumerates all per-attempt outcome vectors over {silent, malformed, valid, short split} for r in 0..2 (quick) / 0..3 (thorough) at "
             "each request position; each is scripted and run; number and bytes of sends, result class and result value are compared with the model.",
             "Trusted: TLC, scripted transport hook, reference replies built from the layout tables."),
